@@ -190,6 +190,105 @@ def trip(ctx, case):
                 os.environ['PLAYBACK_INTERCEPTED_FILE_SIZE_LIMIT'] = old_env
 
 
+def trip_rounds(ctx, case):
+    """Several rounds through the SAME handler objects and the SAME paths inside one operation: each round delivers other bytes of
+    the same length, and the file keeps the same modification time (tools that preserve mtimes, coarse timestamps). During replay
+    the target directory already holds longer left-over files at those paths."""
+    from playback.tape_recorder import TapeRecorder, CapturedArg
+    from playback.interception.files.input_file_interception import InputInterceptionFileDataHandler
+    from playback.interception.files.output_file_interception import OutputInterceptionFileDataHandler
+    from vlib import genclasses
+    rng = random.Random(case['seed'])
+    n = case['rounds']
+    size = case['size']
+    contents = [contents_fixed(rng, size if not case['shrinking'] else max(0, size - 7 * i)) for i in range(n)]
+    w = dict(case)
+    dir_a = tempfile.mkdtemp(prefix='vp-c20a-')
+    dir_b = tempfile.mkdtemp(prefix='vp-c20b-')
+    try:
+        with open_box(case['cassette']) as box:
+            rec = TapeRecorder(SpyCassette(box.cassette))
+            rec.enable_recording()
+            static = case['static_in']
+            in_handler = InputInterceptionFileDataHandler(0 if static else 1, 'file_path')
+            out_handler = OutputInterceptionFileDataHandler(0, 'file_path')
+            bodies = [0]
+
+            def fetch_body(file_path, round_no):
+                bodies[0] += 1
+                with open(file_path, 'wb') as f:
+                    f.write(contents[round_no])
+                os.utime(file_path, (1700000000, 1700000000))     # same mtime every round
+                return file_path
+            ns = {}
+            if static:
+                ns['fetch'] = staticmethod(rec.static_intercept_input('files.fetch', data_handler=in_handler, capture_args=[CapturedArg(1, 'round_no')])(
+                    lambda file_path, round_no: fetch_body(file_path, round_no)))
+            else:
+                ns['fetch'] = rec.intercept_input('files.fetch', data_handler=in_handler, capture_args=[CapturedArg(2, 'round_no')])(
+                    lambda self, file_path, round_no: fetch_body(file_path, round_no))
+            ns['publish'] = rec.intercept_output('files.publish', data_handler=out_handler)(lambda self, file_path: 'ok')
+            seen = []
+
+            def execute(self, workdir):
+                src, dst = os.path.join(workdir, 'in.bin'), os.path.join(workdir, 'out.bin')
+                for i in range(n):
+                    got = self.fetch(src, i)
+                    with open(got, 'rb') as f:
+                        data = f.read()
+                    seen.append(data)
+                    with open(dst, 'wb') as f:
+                        f.write(data)
+                    os.utime(dst, (1700000000, 1700000000))
+                    self.publish(dst)
+                return n
+            ns['execute'] = rec.operation()(execute)
+            cls = genclasses.register(type('FileRounds%d' % (case['seed'] % 100000), (object,), ns))
+            cls().execute(dir_a)
+            saves = [e for e in rec.tape_cassette.log if e[0] == 'save']
+            if len(saves) != 1 or any(e[0] == 'save_failed' for e in rec.tape_cassette.log):
+                ctx.violation('file rounds trip was not saved', w)
+                return
+            if seen != contents:
+                ctx.violation('harness error: live run read other bytes', w)
+                return
+            # left-over, longer files at the replay paths
+            for name in ('in.bin', 'out.bin'):
+                with open(os.path.join(dir_b, name), 'wb') as f:
+                    f.write(b'LEFTOVER' * (size // 4 + 10))
+            del seen[:]
+            nb = bodies[0]
+            rec.tape_cassette = box.reader()
+            pb = rec.play(saves[0][2], lambda recording: cls().execute(dir_b))
+            if bodies[0] != nb:
+                ctx.violation('intercepted body executed during replay', w)
+            ctx.count('round_files_compared', n)
+            for i in range(n):
+                if i >= len(seen) or seen[i] != contents[i]:
+                    got = seen[i] if i < len(seen) else None
+                    ctx.violation('round %d of %d: file restored at the replayed path differs from the recorded bytes (%s)' % (
+                        i + 1, n, 'old tail of a longer left-over file kept' if got and got.startswith(contents[i]) and len(got) > len(contents[i]) else
+                        ('bytes of another round' if got in contents else 'other bytes')), dict(w, round=i, got_len=None if got is None else len(got)))
+                    break
+            for which, outs in (('recorded_outputs', pb.recorded_outputs), ('playback_outputs', pb.playback_outputs)):
+                ent = sorted([o for o in outs if 'files.publish' in o.key], key=lambda o: int(o.key.split('#')[1].split('.')[0]))
+                if len(ent) != n:
+                    ctx.violation('%s holds %d file output entries for %d calls' % (which, len(ent), n), w)
+                    continue
+                for i, o in enumerate(ent):
+                    ctx.count('round_holders_compared')
+                    if out_handler.restore_output_from_recording(o.value).file_content != contents[i]:
+                        ctx.violation('round %d: holder content of the %s file output differs from the bytes sent' % (i + 1, which), dict(w, round=i))
+                        break
+    finally:
+        shutil.rmtree(dir_a, ignore_errors=True)
+        shutil.rmtree(dir_b, ignore_errors=True)
+
+
+def contents_fixed(rng, size):
+    return bytes(rng.randrange(256) for _ in range(size))
+
+
 def shapes(rng):
     return {'static_in': rng.random() < 0.5, 'static_out': rng.random() < 0.5, 'kw_in': rng.random() < 0.5, 'kw_out': rng.random() < 0.5,
             'cassette': rng.choice(['memory', 'file', 's3']), 'same_recorder': rng.random() < 0.5}
@@ -228,6 +327,12 @@ def run(ctx):
             ctx.case(case)
             ctx.count('large_file_trips')
             trip(ctx, case)
+    for i in range(ctx.budget(30, 600)):
+        case = {'seed': base + 50000 + i, 'rounds': rng.choice([2, 3]), 'size': rng.choice([0, 1, 17, 300, 5000]), 'shrinking': rng.random() < 0.4,
+                'static_in': rng.random() < 0.5, 'cassette': rng.choice(['memory', 'file', 's3']), 'kind': 'rounds'}
+        ctx.case(case)
+        ctx.count('round_trips')
+        trip_rounds(ctx, case)
     for i in range(n):
         case = dict(shapes(rng), seed=base + 10000 + i)
         if rng.random() < 0.3:
@@ -241,5 +346,7 @@ def run(ctx):
 
 
 def replay(ctx, w):
-    case = {k: v for k, v in w.items() if k not in ('content_len',)}
+    case = {k: v for k, v in w.items() if k not in ('content_len', 'round', 'got_len')}
+    if case.get('kind') == 'rounds':
+        return trip_rounds(ctx, case)
     trip(ctx, case)
